@@ -57,3 +57,16 @@ Fixpoint refs_after (attempts : list nat) : nat * nat :=   (* (taken, released) 
   | [] => (0, 0)
   | n :: r => let '(t, d) := refs_after r in (n + t, n + d)
   end.
+
+(* ---- generated cases: hidden state observed before / after real extractions ---- *)
+Definition hidden_eqb (a b : hidden) : bool :=
+  list_eqb Nat.eqb (pending a) (pending b) && (len_cache a =? len_cache b)
+  && option_eqb Bool.eqb (trickery_sw a) (trickery_sw b)
+  && option_eqb (fun x y : bool * bool => Bool.eqb (fst x) (fst y) && Bool.eqb (snd x) (snd y)) (opts a) (opts b)
+  && (registry_size a =? registry_size b).
+Definition pcase := (env * bool * bool * hidden * hidden)%type.
+Definition pcase_ok (k : pcase) : bool :=
+  let '(e, wc, rc, h, h') := k in hidden_eqb (extract_hidden e wc rc h) h'.
+Definition mismatches (cases : list pcase) : list nat := false_indices 0 (map pcase_ok cases).
+Definition count_nontrivial (cases : list pcase) : nat :=
+  count_true (map (fun k : pcase => let '(e, wc, rc, h, h') := k in negb (hidden_eqb h h')) cases).
